@@ -32,7 +32,13 @@ Inductive ecase :=
 | EDoorStamp (fmt : N) (input : str) (impl : eres stamp)
 | EDoorPunct (fmt : N) (input : str) (impl : eres punct)
 | EMulti (fmt : N) (inputs : list str) (impl : option (list (outcome (narsese Z))))
-| EFloat (buf : str) (impl : option Z).
+| EFloat (buf : str) (impl : option Z)
+(* NarseseValue wrappers and the sentence/task casts on an enum value (Model/Access.v NValue, Model/Sentence.v):
+   is_term/is_sentence/is_task; try_into_term/_sentence/_task (Ok payload re-wrapped | None);
+   try_into_task_compatible (Ok task re-wrapped | None); NarseseValue::try_cast_to_sentence (is Ok?, the value
+   inside Ok / handed back inside Err) *)
+| ECast (v : narsese Z) (is3 : bool * bool * bool) (into_t into_s into_k compat : option (narsese Z))
+        (to_sentence : bool * narsese Z).
 
 Definition zlist_eqb (a b : list Z) : bool := list_eqb Z.eqb a b.
 Definition stamp_eqb (a b : stamp) : bool :=
@@ -97,5 +103,18 @@ Definition ecase_check (c : ecase) : bool :=
       | _, _ => false
       end
   | EFloat buf impl => ozeqb (fread_dec buf) impl
+  | ECast v is3 it isn ik compat ts =>
+      let oeq (a b : option (narsese Z)) :=
+        match a, b with Some x, Some y => narsese_eqb x y | None, None => true | _, _ => false end in
+      Bool.eqb (nv_is_term v) (fst (fst is3)) && Bool.eqb (nv_is_sentence v) (snd (fst is3)) &&
+      Bool.eqb (nv_is_task v) (snd is3) &&
+      oeq (option_map NTerm (try_into_term v)) it &&
+      oeq (option_map NSentence (try_into_sentence v)) isn &&
+      oeq (option_map NTask (try_into_task v)) ik &&
+      oeq (option_map NTask (try_into_task_compatible (@cast_to_task Z) v)) compat &&
+      match nv_try_cast_to_sentence (@try_cast_to_sentence Z) v with
+      | inl w => fst ts && narsese_eqb w (snd ts)
+      | inr w => negb (fst ts) && narsese_eqb w (snd ts)
+      end
   end.
 Definition mismatches_enum := mism ecase_check 0.
